@@ -20,6 +20,11 @@
       [good_value P data wmin wmax t] = [t] is a byte string as long as [data], its
       Hamming distance from [data] lies in the window, and P accepts it ([good_bools]
       likewise).
+    - integer types (Model/BruteForceConc.v): [cfactor_go] = the worker count with run()'s
+      conversions between int (GOMAXPROCS, the count), uint64 (the amount) and uint (the
+      maxConcurrency argument, ANY value of the type) performed in 64-bit two's complement;
+      [piece_size_go] = what run() does with the count next (divide by it, size a channel
+      with it); [cfactor_signed_cap] = the same with the limit compared as an int.
     - processes (Model/BruteForceProc.v): [table] = the package-level
       binomialCoefficientsLookupTable every worker's seek reads; [table_zero] its value
       before init(), [proc_boot] = the state main starts with (init() has filled it);
@@ -31,7 +36,8 @@
       on its own, i.e. the relation all theorems above the process section speak about. *)
 From CSS Require Import Lib.Base Lib.Cases Model.Comb Proofs.Comb
      Model.BruteForce Model.BruteForceCases Proofs.BruteForce Proofs.BruteForceValues
-     Model.BruteForceProc Proofs.BruteForceProc.
+     Model.BruteForceProc Proofs.BruteForceProc
+     Model.BruteForceConc Proofs.BruteForceConc.
 
 (** ** The partition of the combination IDs into worker slices *)
 
@@ -122,6 +128,50 @@ Theorem C07_conc_independent : forall (A : Type) (flip : list Z -> list A -> out
   (exists r1 r2, res1 = Ok (Some r1) /\ res2 = Ok (Some r2) /\ length r1 = length r2).
 Proof. exact @conc_independent. Qed.
 Print Assumptions C07_conc_independent.
+
+(** ** maxConcurrency over the whole range of uint *)
+
+(** run() computes the worker count across int / uint64 / uint: for every GOMAXPROCS an int can
+    hold, EVERY value of the uint argument (0, 1, ..., 2^63 - 1, 2^63, ..., 2^64 - 1) and every
+    amount that passes the MaxInt64 guard, the conversions change nothing ([cfactor] is what
+    all theorems of this file speak about), the division by the count and the channel sized with
+    it are defined, and the piece size is the model's *)
+Theorem C07_worker_count_all_limits : forall gomax maxconc amount,
+  1 <= gomax < TWO63 -> 0 <= maxconc < W64 -> 0 <= amount < TWO63 ->
+  cfactor_go gomax maxconc amount = cfactor gomax maxconc amount /\
+  piece_size_go amount (cfactor_go gomax maxconc amount) = Ok (amount / cfactor gomax maxconc amount).
+Proof. intros g m a Hg Hm Ha. split; [exact (cfactor_go_eq g m a Hg Hm Ha)|exact (piece_size_go_ok g m a Hg Hm Ha)]. Qed.
+Print Assumptions C07_worker_count_all_limits.
+
+(** a limit only ever lowers the worker count, and one that does not bind changes nothing *)
+Theorem C07_limit_only_lowers : forall gomax maxconc amount, 1 <= gomax ->
+  cfactor gomax maxconc amount <= cfactor gomax 0 amount /\
+  (maxconc <= 0 \/ cfactor gomax 0 amount <= maxconc ->
+   cfactor gomax maxconc amount = cfactor gomax 0 amount).
+Proof. exact cfactor_cap_lowers. Qed.
+Print Assumptions C07_limit_only_lowers.
+
+(** a limit of at least GOMAXPROCS ("no limit of my own": the largest uint, 2^63, ...) is no limit:
+    the call has exactly the runs - per-worker traces and results - of the call with limit 0 *)
+Theorem C07_huge_limit_is_no_limit : forall (A : Type) (flip : list Z -> list A -> outcome (list A)) (P : list A -> bool)
+    ifail gomax maxconc data isz wmin wmax tr res,
+  1 <= gomax -> gomax <= maxconc ->
+  (bf_run flip P ifail gomax maxconc data isz wmin wmax tr res <->
+   bf_run flip P ifail gomax 0 data isz wmin wmax tr res).
+Proof. exact huge_limit_is_no_limit. Qed.
+Print Assumptions C07_huge_limit_is_no_limit.
+
+(** the model is sensitive to the placement of the conversions: comparing the limit as an int
+    gives a negative count as soon as the top bit of the limit is set (then run() panics
+    sizing its channel) and is indistinguishable on every limit below 2^63 *)
+Example C07_ex_cap_conversion_matters :
+  cfactor_go 4 (W64 - 1) 100 = 1 /\ cfactor_signed_cap 4 (W64 - 1) 100 = -1 /\
+  piece_size_go 100 (cfactor_signed_cap 4 (W64 - 1) 100) = Panic /\
+  cfactor_go 16 TWO63 635376 = 16 /\ cfactor_signed_cap 16 TWO63 635376 = - TWO63 /\
+  piece_size_go 635376 (cfactor_signed_cap 16 TWO63 635376) = Panic /\
+  (forall g m a, 1 <= g < TWO63 -> 0 <= m < TWO63 -> 0 <= a < TWO63 ->
+                 cfactor_signed_cap g m a = cfactor_go g m a).
+Proof. exact signed_cap_differs. Qed.
 
 (** try(): the worker's private copy is the caller's data again after every
     miss, i.e. every candidate is evaluated on [flip s] of the caller's data and
